@@ -21,14 +21,24 @@ CHECKS = {
          "Rocq/Coq proof (trace equality + prefix determinism) + per-step vm_compute correspondence", "6 C05", "coq-calculus"),
  "C06": ("fault_transparent: for every tool, input, fault index k and exception object, the run ends with that very exception, having followed the fault-free trace up to the failing use and emitting only aclose events afterwards (Props/C06.v); tied by enumerating every fault position of each generated case on the implementation (identity checked with `is`) and over the CPython counterpart's own use sequence.",
          "Rocq/Coq proof (two-run regularity relation closed under all combinators) + exhaustive per-case fault enumeration", "6 C06", "coq-calculus"),
+ "C07": ("Invariants over arbitrary operation histories of a model of _BorrowedAsyncIterator handles (nesting through re-borrowing) over one underlying iterator (Props/C07.v): the underlying iterator is never closed by any handle operation, everything delivered through any handle or to the owner is a prefix of its items in order, a closed handle yields nothing and no longer advances it; tied by random and directed histories on real handles over async-generator and class-based iterators with every capability mix, real tools as closing clients.",
+         "Rocq/Coq proof (invariant by induction over operation lists) + vm_compute correspondence on operation histories", "6 C07", "coq-machines"),
+ "C08": ("The same machine with scopes (Props/C08.v): inside any nesting of scoped_iter blocks nothing closes the underlying iterator, inner exits end only their own handle, the outermost exit closes it exactly once, afterwards the handle yields nothing; tied by histories with nested scopes and all exit kinds, plus blocks of real tools compared with the stdlib tools over a shared synchronous iterator.",
+         "Rocq/Coq proof (invariant over histories with a scope stack) + vm_compute correspondence + shared-iterator oracle with the stdlib tools", "6 C08", "coq-machines"),
  "C09": ("Inductive invariant over arbitrary schedules of a small-step model of tee_peer/_TeePeer (Props/C09.v): each live child has yielded-or-buffered exactly what was fetched, outputs are prefixes of the source, mutual exclusion on the source with a lock, closed children deregistered, source closed exactly when the last child is done, cancellation releases the lock; the model is compared after every action with the implementation under a hand-driven scheduler that enumerates interleavings exhaustively for small configurations.",
          "Rocq/Coq proof (invariant by induction over schedule lists) + exhaustive small-scope schedule enumeration with per-step vm_compute correspondence", "6 C09", "coq-machines"),
  "C10": ("key_classes (argument patterns distinguished exactly as functools._make_key does) and lru_refines (outputs, invocations and statistics equal the abstract LRU specification after every operation, for all maxsize/typed/histories) plus corollaries (Props/C10.v); three-way differential on every generated history: asyncstdlib, Coq model, functools.lru_cache.",
          "Rocq/Coq proof (refinement to an abstract LRU, key-class equivalence) + three-way vm_compute correspondence", "6 C10", "coq-machines"),
+ "C11": ("Invariant over arbitrary schedules of a small-step model of overlapping cached calls (Props/C11.v): entries never exceed maxsize, keys unique, every stored and returned value was produced for an equal key, misses = invocations and hits+misses = calls started (without cache_clear), failed/cancelled calls store nothing, and from a quiescent state a call behaves as the sequential cache of C10; compared after every action with the real lru_cache under the hand-driven scheduler (exhaustive interleavings of small configurations, random larger ones, cancellation at suspension points).",
+         "Rocq/Coq proof (invariant by induction over schedule lists; quiescence = sequential step) + schedule enumeration with per-step vm_compute correspondence", "6 C11", "coq-machines"),
+ "C12": ("Invariants over arbitrary schedules of a small-step model of the descriptor, the placeholder and its lock (Props/C12.v): every awaiter receives a value some getter run returned, a lock is held only inside the getter (cancellation and failure release it), with a lock and no deletion at most one successful computation and a stable value, at most one more per deletion, sequential semantics (getter runs iff no value is cached); compared after every action with the real cached_property under the hand-driven scheduler.",
+         "Rocq/Coq proof (invariant by induction over schedule lists) + schedule enumeration with per-step vm_compute correspondence", "6 C12", "coq-machines"),
  "C13": ("aexit_equal_partial / aenter_equal: for all generator responses and block outcomes (other than GeneratorExit) the __aexit__ classification of asyncstdlib equals CPython 3.12's, with the classification lemmas and the GeneratorExit difference (Props/C13.v); all 90 generator programs x 8 block outcomes are run against asyncstdlib.contextmanager, contextlib.asynccontextmanager and the model (exhaustive).",
          "Rocq/Coq proof (case analysis over all generator responses) + exhaustive program x outcome correspondence", "6 C13", "coq-machines"),
  "C14": ("unwind_nested (the unwinding loop equals the recursive semantics of nested with statements: outcome and the exception handed to each exit) and the run-once theorems over arbitrary histories with pop_all (Props/C14.v); tied by running random stacks against real nested `async with` statements and random histories against contextlib.AsyncExitStack, both compared with the model in Coq.",
          "Rocq/Coq proof (fold = nested-with recursion; permutation/NoDup over histories) + vm_compute correspondence + nested-with and AsyncExitStack oracles", "6 C14", "coq-machines"),
+ "C15": ("For all schedules of concurrent calls of a decorated coroutine function (Props/C15.v): each call's projection of the global event log is enter; body; exit with the body's exception; result, generator-based managers use a fresh generator per call, and a call's projection is independent of the other calls' actions (isolation); the global log of the real decorator under the hand-driven scheduler is compared with the model for every explored interleaving.",
+         "Rocq/Coq proof (projection/commutation over schedule lists) + schedule enumeration with vm_compute correspondence", "6 C15", "coq-machines"),
  "C16": ("groupby_refines: for all key functions, items and operation sequences the transliterated implementation state machine yields exactly what the positional itertools.groupby specification yields; stale groups stop, items come out as a subsequence, closing works from every state (Props/C16.v); tied by random and bounded-exhaustive operation sequences run on asyncstdlib.groupby and itertools.groupby and compared with model and spec in Coq.",
          "Rocq/Coq proof (simulation between implementation machine and positional spec) + vm_compute correspondence", "6 C16", "coq-machines"),
  "C18": ("Cancellation = a BaseException thrown at an arbitrary use: fault_transparent and tool_releases instantiated with it (Props/C18.v) for the iterator tools and aggregations; tied by throwing into the hand-driven coroutine at every suspension point of executions whose sources (pull and aclose) and callables all suspend, then closing the iterator and checking release on the real sources. The tee / lru_cache / cached_property / ExitStack / scoped_iter clauses are covered by the machines of C09/C11/C12/C14/C08.",
